@@ -18,9 +18,6 @@ use vh_core::c02::*;
 
 type P1 = (&'static str, i64);
 
-fn pairs(t: &Value) -> Vec<P1> {
-    kvs_of(&t["kvs"]).into_iter().map(|(k, v)| (leak_str(&k), v)).collect()
-}
 
 /// A statically known collection shape: `Out` is the real type.
 trait Shape {
@@ -36,6 +33,9 @@ struct ArrS<const N: usize>;
 struct SliceS;
 struct BTreeS;
 struct HashS;
+struct CtxtS;
+struct ExtentS;
+struct SpanCtxtS;
 struct OptS<T>(T);
 struct RefS<T>(T);
 struct BoxS<T>(T);
@@ -115,6 +115,33 @@ impl Shape for HashS {
             m.insert(k.to_string(), v);
         }
         m
+    }
+}
+impl Shape for CtxtS {
+    type Out = emit::platform::thread_local_ctxt::ThreadLocalCtxtFrame;
+    fn name() -> String {
+        "ctxt".into()
+    }
+    fn build(t: &Value) -> Self::Out {
+        ctxt_snapshot(&pairs(t))
+    }
+}
+impl Shape for ExtentS {
+    type Out = emit::Extent;
+    fn name() -> String {
+        "extent".into()
+    }
+    fn build(t: &Value) -> Self::Out {
+        extent_view(&pairs(t))
+    }
+}
+impl Shape for SpanCtxtS {
+    type Out = emit::span::SpanCtxt;
+    fn name() -> String {
+        "spanctxt".into()
+    }
+    fn build(t: &Value) -> Self::Out {
+        span_ctxt_view(&pairs(t))
     }
 }
 impl<T: Shape> Shape for OptS<T> {
@@ -221,15 +248,15 @@ macro_rules! each {
         each!([$($rest),*], $cb, $a);
     };
 }
-// all leaves / the four leaves used under deeper nodes
+// all leaves / the three leaves used under deeper nodes
 macro_rules! all_leaves {
     ($cb:ident, $a:tt) => {
-        each!([EmptyS, NoneS, PairS, ArrS<0>, ArrS<1>, ArrS<2>, ArrS<3>, SliceS, BTreeS, HashS], $cb, $a)
+        each!([EmptyS, NoneS, PairS, ArrS<0>, ArrS<1>, ArrS<2>, ArrS<3>, SliceS, BTreeS, HashS, CtxtS, ExtentS, SpanCtxtS], $cb, $a)
     };
 }
 macro_rules! few_leaves {
     ($cb:ident, $a:tt) => {
-        each!([PairS, ArrS<2>, BTreeS, HashS], $cb, $a)
+        each!([PairS, ArrS<2>, HashS], $cb, $a)
     };
 }
 macro_rules! reg_one {
